@@ -156,7 +156,7 @@ type scenario struct {
 	Kind   string `json:"handle"`
 	Op     string `json:"operation"`
 	NFiles int    `json:"referenced_files"`
-	Inject string `json:"injected_failure"` // none | missing-source | blocked-by-directory | control-blocked-by-directory | control-missing | dest-missing
+	Inject string `json:"injected_failure"` // none | missing-source | blocked-by-directory | control-blocked-by-directory | control-missing | dest-missing | source-is-directory | control-is-directory
 	At     int    `json:"at_file"`          // index of the referenced file the failure is injected at (-1: n/a)
 	Evil   string `json:"hostile_name"`     // "" or the listed name that leaves the directory ("ABS/..." is made absolute inside the temp tree)
 }
@@ -234,6 +234,15 @@ func runScenario(base string, s scenario) {
 		write(filepath.Join(dest, ctl, "child"), []byte("x"))
 	case "control-missing":
 		must(os.Remove(ctlPath))
+	case "source-is-directory":
+		// mid-copy read failure: the referenced name is a directory at the source, so opening it for reading works
+		// (and so does creating the file in the destination) but the first read fails (EISDIR)
+		must(os.Remove(filepath.Join(src, names[s.At])))
+		must(os.Mkdir(filepath.Join(src, names[s.At]), 0o755))
+	case "control-is-directory":
+		// the same failure at the control file itself: the handle's own path is a directory by the time of the call
+		must(os.Remove(ctlPath))
+		must(os.Mkdir(ctlPath, 0o755))
 	}
 	before := snapshot(root)
 	oldName := h.filename()
@@ -269,6 +278,19 @@ func runScenario(base string, s scenario) {
 	}
 	if s.Inject == "none" && s.Evil == "" && opErr != nil {
 		bad("unexpected-error", "nothing stands in the way, yet: "+opErr.Error())
+	}
+	if s.Inject == "source-is-directory" || s.Inject == "control-is-directory" {
+		what, name := "the control file", ctl
+		if s.At >= 0 {
+			what, name = "referenced file "+names[s.At], names[s.At]
+		}
+		if opErr == nil {
+			bad("read-failure-not-reported", fmt.Sprintf("%s cannot be read (it is a directory: open succeeds, read fails), yet %s returned nil", what, s.Op))
+		}
+		// whatever is returned: the unreadable source must not have produced a regular file of that name in the destination
+		if strings.HasPrefix(after["dest/"+name], "file:") {
+			bad("read-failure-delivered-file", fmt.Sprintf("%s cannot be read, yet a regular file %s (%d bytes) is in the destination", what, name, len(after["dest/"+name])-len("file:")))
+		}
 	}
 
 	isFile := func(m map[string]string, k string) bool { return strings.HasPrefix(m[k], "file:") }
@@ -423,6 +445,12 @@ func main() {
 				if op != "Remove" {
 					scenarios = append(scenarios, scenario{kind, op, n, "control-blocked-by-directory", -1, ""}, scenario{kind, op, n, "dest-missing", -1, ""})
 				}
+				if op == "Copy" { // mid-copy read failure, at each referenced file and at the control file
+					for i := 0; i < n; i++ {
+						scenarios = append(scenarios, scenario{kind, op, n, "source-is-directory", i, ""})
+					}
+					scenarios = append(scenarios, scenario{kind, op, n, "control-is-directory", -1, ""})
+				}
 				for i := 0; i < n; i++ {
 					for _, evil := range []string{"../evil", "sub/../../evil", "ABS/evil"} {
 						scenarios = append(scenarios, scenario{kind, op, n, "none", i, evil})
@@ -443,6 +471,11 @@ func main() {
 	}
 	for _, i := range []int{1, 9, 24, 30, 75, 95, 150} {
 		samples = append(samples, scenarios[i])
+	}
+	for _, s := range scenarios {
+		if (s.Inject == "source-is-directory" && s.NFiles == 3 && s.At == 1 || s.Inject == "control-is-directory" && s.NFiles == 2) && s.Kind == "changes" {
+			samples = append(samples, s)
+		}
 	}
 
 	reps, size := 5, 4<<20
@@ -468,10 +501,11 @@ func main() {
 	}
 	out := map[string]interface{}{
 		"bound": fmt.Sprintf("uploads with 0..3 referenced files x {Copy, Move, Remove} x {.dsc, .changes} x {no failure; referenced file i missing at the source; a non-empty DIRECTORY named like referenced file i in the destination (for Remove: in place of the file); "+
-			"a non-empty directory named like the control file in the destination; control file deleted after parsing; destination directory missing} x hostile listed names {../evil, sub/../../evil, <abs>/evil} at every position = %d scenarios on the real file system (as uid %d, no permission bits used); "+
+			"a non-empty directory named like the control file in the destination; control file deleted after parsing; destination directory missing; "+
+			"ADDED mid-copy read failure (Copy only): referenced file i, or the control file itself, is a DIRECTORY at the source by the time of the call, so it opens for reading and the temporary file in the destination is created, but the read fails (EISDIR) - at every referenced file and at the control file, for 0..3 files} x hostile listed names {../evil, sub/../../evil, <abs>/evil} at every position = %d scenarios on the real file system (as uid %d, no permission bits used); "+
 			"plus %d watched Copy/Move runs (1..3 files of %d MB, %d repetitions) with a goroutine polling os.ReadDir on the destination (%d polls)", len(scenarios), os.Getuid(), watches, size>>20, reps, polls),
 		"rule": "each scenario builds a fresh temp tree (src/, dest/, decoys outside, bystanders inside), parses the control file with ParseDscFile/ParseChangesFile, injects the failure, snapshots the whole tree before and after the call. " +
-			"Checks: nothing outside src/ and dest/ changes; hostile name => error and the decoy is not delivered; control file a regular file in dest only if every referenced file is there byte-identical; on error control file not in dest, (Move) still intact at source, Filename unchanged; " +
+			"Checks: nothing outside src/ and dest/ changes; hostile name => error and the decoy is not delivered; mid-copy read failure => error returned and no regular file of the unreadable name in the destination; control file a regular file in dest only if every referenced file is there byte-identical; on error control file not in dest, (Move) still intact at source, Filename unchanged; " +
 			"on success everything byte-identical in dest, Filename = dest/<name>, no stray entries in dest, sources gone (Move) or untouched (Copy); Remove: control file gone only if all referenced files are gone, nil only if everything is gone. Distinct = distinct scenario tuples; the 0-file no-failure scenarios count as trivial",
 		"evaluations":         evals,
 		"distinct_nontrivial": len(distinct),
